@@ -31,6 +31,9 @@ pub enum Unspoken {
     Garbage,
     /// 1.6 request answered with the old `motd§online§max` format
     WrongVariant,
+    /// 1.4 ping (FE 01) answered in the 1.6 format, as servers from 1.6 on do (only where a check asks
+    /// for it: the reply is a valid one, of the 1.6 kind)
+    As16,
 }
 
 #[derive(Clone, Copy, Debug, PartialEq, Eq)]
@@ -442,6 +445,11 @@ impl McTcpServer {
             }
             Unspoken::WrongVariant => {
                 let d = self.host.legacy.packet_old();
+                cx.tcp_send(conn, d);
+                cx.tcp_fin(conn);
+            }
+            Unspoken::As16 => {
+                let d = self.host.legacy.packet_16();
                 cx.tcp_send(conn, d);
                 cx.tcp_fin(conn);
             }
